@@ -123,6 +123,9 @@ PROGRAMS = [
 ]
 
 
+SU2_INSTANCES = {'from t\nselect {a = "éééé", b = (text.length 5 6 7)}\n'}
+
+
 def _try(src):
     import replaylib
     kind, val = replaylib.compile_errors(src)
@@ -163,6 +166,7 @@ def sweep():
     out = []
     for src in PROGRAMS:
         r = _try(src)
-        r["obligation"] = "span_frame.SF.sweep"
+        # a RESOLVER error behind multi-byte text carries the parser's byte span: that is the recorded finding span_units.SU2 (its obligation), not a new maker of spans
+        r["obligation"] = "span_units.SU2" if src in SU2_INSTANCES else "span_frame.SF.sweep"
         out.append(r)
     return out
